@@ -1203,7 +1203,16 @@ func c08RunHeadSeq(c *vk.Case) {
 				c.Violate("c08:head-seq:pair-differs-from-fetch", detail(), "Latest(%d) asked the source, was told (%d,%s) and returned (%d,%x)", n, fetched.num, fetched.hash, num, hash)
 			}
 			lastNum = num
-			held = append(held, c08Held{n, num, hash, append([]byte(nil), hash...)})
+			if r.Chance(1, 4) && len(hash) > 0 {
+				// a caller that reuses the buffer it was given (what it does with its slice is its business):
+				// later answers must still be announced pairs
+				for i := range hash {
+					hash[i] = 0xEE
+				}
+				c.Obs("returned_hashes_overwritten_by_caller", 1)
+			} else {
+				held = append(held, c08Held{n, num, hash, append([]byte(nil), hash...)})
+			}
 			if !asked && !failedFetch {
 				hits++
 				hitsTotal++
